@@ -33,6 +33,8 @@ type half struct {
 	written  int64 // bytes accepted from the writer
 	consumed int64 // bytes handed to the reader
 
+	holdReads bool // reads block even when data is queued (a peer that stopped reading)
+
 	failWriteAt int64 // >=0: writes fail once written reaches this many bytes
 	cutReadAt   int64 // >=0: reader sees EOF after this many bytes (rest discarded)
 }
@@ -76,7 +78,7 @@ func (c *Conn) Read(p []byte) (int, error) {
 			h.buf = h.buf[:0]
 			return 0, h.rerr
 		}
-		if len(h.buf) > 0 {
+		if len(h.buf) > 0 && !h.holdReads {
 			n := len(p)
 			if n > len(h.buf) {
 				n = len(h.buf)
@@ -90,7 +92,7 @@ func (c *Conn) Read(p []byte) (int, error) {
 			h.cond.Broadcast()
 			return n, nil
 		}
-		if h.wclosed {
+		if h.wclosed && !(h.holdReads && len(h.buf) > 0) {
 			return 0, h.rerr
 		}
 		if !h.rdead.IsZero() && !time.Now().Before(h.rdead) {
@@ -286,6 +288,16 @@ func (c *Conn) CutReadsAfter(n int64) {
 	h := c.r
 	h.mu.Lock()
 	h.cutReadAt = n
+	h.cond.Broadcast()
+	h.mu.Unlock()
+}
+
+// HoldReads makes reads on this end block even when data is queued (the
+// application behind this end has stopped reading), until released.
+func (c *Conn) HoldReads(on bool) {
+	h := c.r
+	h.mu.Lock()
+	h.holdReads = on
 	h.cond.Broadcast()
 	h.mu.Unlock()
 }
